@@ -131,6 +131,12 @@ pub struct Case {
     /// transaction is confirmed on the tracker's chain
     #[serde(default)]
     pub onchain: bool,
+    /// API level only, 0 = no: the SetupChannel of the history's channel was refused (1 holder
+    /// contest delay out of range, 2 counterparty contest delay out of range, 3 unsafe legacy
+    /// commitment type) and never repeated: the channel is not set up, and C01's last clause says
+    /// that no request sequence obtains a secret from it
+    #[serde(default)]
+    pub refused_setup: u8,
 }
 
 /// Execution level of a history.  VERIF_PROTO_ONLY=1 removes the API level (sensitivity runs
@@ -146,8 +152,11 @@ pub fn proto_strat() -> BoxedStrategy<Option<u8>> {
 }
 
 pub fn case_strat(max_ops: usize, valid_weight: u32, sign_weight: u32) -> BoxedStrategy<Case> {
-    (any::<bool>(), any::<bool>(), proptest::collection::vec(op_strat(valid_weight, sign_weight), 1..max_ops), proto_strat(), any::<bool>())
-        .prop_map(|(anchors, outbound, ops, proto, onchain)| Case { anchors, outbound, ops, onchain: onchain && proto.is_none(), proto })
+    (any::<bool>(), any::<bool>(), proptest::collection::vec(op_strat(valid_weight, sign_weight), 1..max_ops), proto_strat(), any::<bool>(), prop_oneof![3 => Just(0u8), 1 => 1u8..4])
+        .prop_map(|(anchors, outbound, ops, proto, onchain, refused_setup)| {
+            let refused_setup = if proto.is_none() { refused_setup } else { 0 };
+            Case { anchors, outbound, ops, onchain: onchain && proto.is_none() && refused_setup == 0, proto, refused_setup }
+        })
         .boxed()
 }
 
@@ -192,6 +201,8 @@ pub struct Machine {
     pub stub: usize,
     pub g: Ghost,
     pub dead: bool,
+    /// the SetupChannel of the history's channel was answered with an error and not repeated
+    pub setup_refused: bool,
 }
 
 pub fn setup_world(anchors: bool, outbound: bool) -> Machine {
@@ -214,7 +225,34 @@ pub fn setup_world(anchors: bool, outbound: bool) -> Machine {
         stub,
         g: Ghost::new(),
         dead: false,
+        setup_refused: false,
     }
+}
+
+/// As `setup_world`, but the channel's SetupChannel is refused (see Case::refused_setup) and not
+/// repeated.  None if the signer accepts the setup (then there is nothing to check).
+pub fn setup_world_refused(anchors: bool, outbound: bool, kind: u8) -> Option<Machine> {
+    let mut w = World::new(WorldCfg::default_testnet());
+    let mut spec = ChanSpec::basic(1);
+    spec.anchors = anchors;
+    spec.outbound = outbound;
+    let ci = w.new_stub(&spec).ok().expect("stub");
+    match kind % 4 {
+        1 => w.chans[ci].setup.holder_selected_contest_delay = 3000,
+        2 => w.chans[ci].setup.counterparty_selected_contest_delay = 3000,
+        _ => w.chans[ci].setup.commitment_type = lightning_signer::channel::CommitmentType::Legacy,
+    }
+    if w.setup_chan(ci).is_ok() {
+        return None;
+    }
+    let mut stub_spec = ChanSpec::basic(2);
+    stub_spec.anchors = anchors;
+    let stub = w.new_stub(&stub_spec).ok().expect("stub");
+    let payee = PublicKey::from_secret_key(&w.secp, &SecretKey::from_slice(&[5u8; 32]).unwrap());
+    for h in 0u8..4 {
+        w.node.add_keysend(payee, phash(h), 2_000_000_000).expect("keysend");
+    }
+    Some(Machine { w, ci, stub, g: Ghost::new(), dead: false, setup_refused: true })
 }
 
 /// As `setup_world`, with the on-chain validator factory and a confirmed funding transaction.
@@ -231,7 +269,7 @@ pub fn setup_world_onchain(anchors: bool, outbound: bool) -> Machine {
     for h in 0u8..4 {
         w.node.add_keysend(payee, phash(h), 2_000_000_000).expect("keysend");
     }
-    Machine { w, ci, stub, g: Ghost::new(), dead: false }
+    Machine { w, ci, stub, g: Ghost::new(), dead: false, setup_refused: false }
 }
 
 impl Machine {
@@ -388,6 +426,10 @@ pub trait HistoryMachine {
     fn is_dead(&self) -> bool;
     fn ghost(&self) -> &Ghost;
     fn restarts(&self) -> u32;
+    /// the SetupChannel of the history's channel was answered with an error and not repeated
+    fn setup_refused(&self) -> bool {
+        false
+    }
 }
 
 impl HistoryMachine for Machine {
@@ -406,11 +448,18 @@ impl HistoryMachine for Machine {
     fn restarts(&self) -> u32 {
         self.w.restarts
     }
+    fn setup_refused(&self) -> bool {
+        self.setup_refused
+    }
 }
 
 /// The machine for a case: API level, or protocol level at the case's protocol version.
 pub fn machine_for(case: &Case) -> Box<dyn HistoryMachine> {
     match case.proto {
+        None if case.refused_setup != 0 => match setup_world_refused(case.anchors, case.outbound, case.refused_setup) {
+            Some(m) => Box::new(m),
+            None => Box::new(setup_world(case.anchors, case.outbound)),
+        },
         None if case.onchain => Box::new(setup_world_onchain(case.anchors, case.outbound)),
         None => Box::new(setup_world(case.anchors, case.outbound)),
         Some(v) => Box::new(crate::props::proto::setup_proto(case.anchors, case.outbound, v as u32)),
@@ -419,6 +468,7 @@ pub fn machine_for(case: &Case) -> Box<dyn HistoryMachine> {
 
 pub fn level_name(case: &Case) -> String {
     match case.proto {
+        None if case.refused_setup != 0 => "api-refused-setup".to_string(),
         None if case.onchain => "api-onchain".to_string(),
         None => "api".to_string(),
         Some(v) => format!("v{}", v),
@@ -748,6 +798,9 @@ impl Prop for C01 {
         let mut m = machine_for(case);
         let level = level_name(case);
         st.class(format!("proto:{}", level));
+        // the setup of the channel was answered with an error
+        let refused_setup = m.setup_refused();
+        let mut refused_reqs = 0u32;
         let mut shape: Vec<(&'static str, i8, u8, &'static str)> = vec![];
         let combined_revoke = case.proto.map_or(false, |v| v < 5);
         let point_with_secret = case.proto.map_or(false, |v| v < 6);
@@ -804,6 +857,9 @@ impl Prop for C01 {
                 _ => (0, 0),
             };
             shape.push((so.kind, d, sk, so.tag));
+            if so.tag == "err" {
+                refused_reqs += 1;
+            }
             if trace.len() < 60 {
                 trace.push(json!({"op": op, "next_before": next, "result": so.tag, "disclosed": so.disclosed, "signed": so.signed}));
             }
@@ -816,6 +872,13 @@ impl Prop for C01 {
                 disclosed_any = true;
                 if *n == u64::MAX {
                     ctx.report(st, Violation::new("C01:stub-disclosed-secret", format!("step {} {:?}: the stub channel disclosed a secret", i, op)))?;
+                    continue;
+                }
+                if refused_setup {
+                    ctx.report(st, Violation::new(
+                        format!("C01:secret-from-channel-whose-setup-was-refused:{}", so.req),
+                        format!("step {} {:?}: the setup of this channel was refused and never repeated, yet the secret of holder commitment {} was disclosed", i, op, n),
+                    ))?;
                     continue;
                 }
                 if !m.ghost().accepted_valid.contains(&(n + 1)) {
@@ -841,6 +904,9 @@ impl Prop for C01 {
         if frontier_req && invalid_attempt && disclosed_any {
             st.class(format!("nontrivial:{}", level));
             st.nontrivial_shape((case.proto, shape));
+        } else if refused_setup && frontier_req && refused_reqs >= 2 {
+            st.class("nontrivial:api-refused-setup");
+            st.nontrivial_shape(("refused-setup", case.refused_setup, refused_reqs.min(6)));
         }
         Ok(())
     }
